@@ -35,6 +35,7 @@ type Program struct {
 	mutators       map[*ssa.Function]map[string]bool
 	regionsCache   *regionAnalysis
 	Yacc           []*yaccInfo
+	panicCls       map[*ssa.Function]string
 }
 
 func (P *Program) readSrc(name string) []byte {
